@@ -187,6 +187,7 @@ func init() {
 					}})
 				}
 			}
+			us = append(us, largeUnit(tier, "time.Time", "Boundary"))
 			return us
 		},
 		RequireCover: func(string) []string {
